@@ -484,11 +484,12 @@ def zeroes_scene(unit):
 
 
 def tu_facts(unit):
-    """Worker entry: accesses + scene-zeroing functions + top-level statement order of calls (for free-then-zero)."""
+    """Worker entry: accesses + scene-zeroing functions + call order in functions that pass a tracked field + the
+    functions called in this TU whose signature mentions mjvGeom (candidates for acquire/release call sites)."""
     acc = scene_access(unit)
     order = {}
     for a in acc:
-        if a["ctx"] == "pass":
+        if a["ctx"] == "pass" and a["function"] not in order:
             fn = unit.funcs[a["function"]]
             seq = []
             for st in cir.kids(cir.body(fn)):
@@ -497,7 +498,67 @@ def tu_facts(unit):
                 for c in cir.calls(st):
                     seq.append((cir.callee(c), c.get("line")))
             order[a["function"]] = seq
-    return {"access": acc, "zeroes": zeroes_scene(unit), "order": order}
+    geom_callees = set()
+    for fname, fn in unit.funcs.items():
+        for c in cir.calls(fn):
+            ce = cir.callee_expr(c)
+            if ce is not None and ce.get("k") == "DeclRefExpr" and "mjvGeom" in ((ce.get("ref") or {}).get("t") or ""):
+                geom_callees.add(cir.callee(c))
+    defs = sorted(n for n, fn in unit.funcs.items() if (fn.get("file") or unit.tu) == unit.tu)
+    return {"access": acc, "zeroes": zeroes_scene(unit), "order": order, "geom_callees": sorted(geom_callees),
+            "defs": defs}
+
+
+def cap_alloc(unit, name, cap="maxgeom", arr="geoms", elem="mjvGeom"):
+    """In `name`: every non-zero store  P->cap = X  comes with a store  P->arr = alloc(X * sizeof(elem))  of the same,
+    never reassigned X.  Returns (ok, detail)."""
+    fn = unit.funcs[name]
+    decls, count = _local_decls(fn)
+    caps, arrs = [], []
+    for n in cir.walk(fn):
+        if n.get("k") == "BinaryOperator" and n.get("op") == "=":
+            rf = modref.root_field(cir.kids(n)[0])
+            if rf is None or rf[0] != SCENE or rf[2] != 0:
+                continue
+            if rf[1] == cap and _int_lit(cir.kids(n)[1]) != 0:
+                caps.append(n)
+            if rf[1] == arr and not _is_null(cir.kids(n)[1]):
+                arrs.append(n)
+    detail = {"cap_stores": len(caps), "array_stores": len(arrs)}
+    if not caps and not arrs:
+        return True, detail
+    sizes = set()
+    for n in arrs:
+        r = cir.strip(cir.kids(n)[1])
+        if not cir.is_call(r) or len(cir.args(r)) != 1 or "*" not in (r.get("t") or ""):
+            return False, dict(detail, why=f"`{cir.text(cir.kids(n)[0])}` is assigned `{cir.text(r)}`, not an allocation of "
+                                           f"count * sizeof({elem})")
+        a = cir.strip(cir.args(r)[0])
+        ok = False
+        if a is not None and a.get("k") == "BinaryOperator" and a.get("op") == "*":
+            x, y = (cir.strip(z) for z in cir.kids(a))
+            for u, v in ((x, y), (y, x)):
+                if v is not None and v.get("k") == "UnaryExprOrTypeTraitExpr" and v.get("n") == "sizeof" and \
+                        (v.get("argt") or "").replace("struct ", "").rstrip("_") == elem and u is not None and \
+                        u.get("k") == "DeclRefExpr":
+                    rid = (u.get("ref") or {}).get("id")
+                    if count.get(rid, 0) == 0:
+                        sizes.add(cir.text(u))
+                        ok = True
+        if not ok:
+            return False, dict(detail, why=f"allocation size `{cir.text(a)}` is not <never-reassigned variable> * "
+                                           f"sizeof({elem})")
+    for n in caps:
+        x = cir.strip(cir.kids(n)[1])
+        if x is None or x.get("k") != "DeclRefExpr" or cir.text(x) not in sizes:
+            return False, dict(detail, why=f"capacity `{cir.text(cir.kids(n)[0])} = {cir.text(x)}` does not equal the allocated "
+                                           f"element count {sorted(sizes)}")
+    if caps and not arrs:
+        return False, dict(detail, why="capacity set without allocating the array")
+    if arrs and not caps:
+        return False, dict(detail, why="array allocated without setting the capacity")
+    detail["count"] = sorted(sizes)
+    return True, detail
 
 
 # ----------------------------------------------------------------------------------------------- pairing typestate
